@@ -73,7 +73,12 @@ def run_tool(impl, src: Path, out: Path, *, style="plaintext", test_run=False, c
                 files[str(p.relative_to(out))] = p.read_bytes().decode("utf-8")
     res["files"] = files
     api_files = [k for k in files if k.endswith("__api.json")]
-    res["api"] = json.loads(files[api_files[0]]) if api_files else None
+    res["api"] = None
+    if api_files:
+        try:
+            res["api"] = json.loads(files[api_files[0]])
+        except ValueError as e:        # a run that aborted while writing leaves a truncated file
+            res["api_invalid"] = str(e)[:120]
     res["api_file"] = api_files[0] if api_files else None
     return res
 
